@@ -237,8 +237,11 @@ package lexer
 
 //@ global ReturnRule == Rule{"returnToParent", "", nil}
 
+// symOK: every rule of the table has a token type of its own, below EOF; inKeys: s occurs in ks.
+//@ pred symOK(c compiledRules, sym map[string]TokenType) = foralls(s, forall(i, 0, len(c[s]), has(sym, c[s][i].Name) && sym[c[s][i].Name] < EOF))
+//@ pred inKeys(ks []string, s string) = member(ks, s)
 //@ pred ruleOK(r compiledRule) = !typeis(r.Action, include) && (r.RE != nil ==> uf("re_anchored", "Bool", r.RE))
-//@ pred rulesOK(d *StatefulDefinition) = !d.matchLongest && foralls(s, forall(i, 0, len(d.rules[s]), ruleOK(d.rules[s][i])))
+//@ pred rulesOK(d *StatefulDefinition) = !d.matchLongest && foralls(s, forall(i, 0, len(d.rules[s]), ruleOK(d.rules[s][i]))) && symOK(d.rules, d.symbols)
 // ruleMatches: does rule r, entered with capture groups g, match at the start of text s?
 //@ spec fn ruleMatches(r compiledRule, g []string, s string) bool = ite(r.RE != nil, uf("re_matches", "Bool", r.RE, s), uf("backref_matches", "Bool", r.Pattern, g, s))
 //@ spec fn isRet(r compiledRule) bool = r.Rule == ReturnRule
@@ -308,9 +311,16 @@ package lexer
 //@   after loop 4: assert foralls(s, !has(compiled, s) ==> len(compiled[s]) == 0)
 //@   after loop 4: assert noInc(compiled)
 //@   loop 6 invariant compiled != nil && fresh(compiled) && freshAll(compiled) && anchOK(compiled) && noInc(compiled) && fresh(keys)
+//@   loop 6 invariant foralls(s, visited(6, s) ==> inKeys(keys, s))
+//@   after loop 6: assert foralls(s, has(compiled, s) ==> inKeys(keys, s))
 //@   loop 7 invariant compiled != nil && fresh(compiled) && freshAll(compiled) && anchOK(compiled) && noInc(compiled) && -1 <= rangeindex && rangeindex < len(keys) && symbols != nil && fresh(symbols) && duplicates != nil && fresh(duplicates)
+//@   loop 7 invariant rn <= EOF - 1 && foralls(s, has(compiled, s) ==> inKeys(keys, s))
+//@   loop 7 invariant forall(a, 0, rangeindex+1, forall(i, 0, len(compiled[keys[a]]), has(symbols, compiled[keys[a]][i].Name) && symbols[compiled[keys[a]][i].Name] < EOF))
 //@   loop 7 decreases len(keys) - rangeindex
 //@   loop 8 invariant compiled != nil && fresh(compiled) && freshAll(compiled) && anchOK(compiled) && noInc(compiled) && -1 <= rangeindex && symbols != nil && fresh(symbols) && duplicates != nil && fresh(duplicates)
+//@   loop 8 invariant rn <= EOF - 1 && foralls(s, has(compiled, s) ==> inKeys(keys, s)) && 0 <= rangeindex_up + 1 && rangeindex_up + 1 < len(keys) && key == keys[rangeindex_up+1]
+//@   loop 8 invariant forall(a, 0, rangeindex_up+1, forall(i, 0, len(compiled[keys[a]]), has(symbols, compiled[keys[a]][i].Name) && symbols[compiled[keys[a]][i].Name] < EOF))
+//@   loop 8 invariant forall(i, 0, rangeindex+1, has(symbols, compiled[key][i].Name) && symbols[compiled[key][i].Name] < EOF)
 //@   loop 8 decreases len(compiled[key]) - rangeindex
 
 //@ func NewSimple [C03]
@@ -380,6 +390,7 @@ package lexer
 //@   ensures old(l.data) == "" ==> result1 == nil && result0.Type == EOF && result0.Value == "" && result0.Pos == old(l.pos)
 //@   ensures old(l.data) == "" ==> l.stack == old(l.stack) && l.data == old(l.data) && l.pos == old(l.pos)
 //@   ensures result1 == nil ==> (result0.Type == EOF && result0.Value == "" && l.data == "" && result0.Pos == l.pos) || (len(result0.Value) > 0 && len(l.data) + len(result0.Value) <= len(old(l.data)))
+//@   ensures @eofOnlyAtEnd result1 == nil && result0.Type == EOF ==> result0.Value == "" && l.data == "" [C07]
 //@   ghost in string, fn string
 //@   ensures @posInv old(posInv(l, in, fn)) ==> posInv(l, in, fn) [C04]
 //@   ensures @tokpos old(posInv(l, in, fn)) && result1 == nil ==> posOK(in, result0.Pos) && result0.Pos.Filename == fn && old(l.pos.Offset) <= result0.Pos.Offset [C04 C06]
